@@ -240,6 +240,7 @@ pub fn drive(vectors: Option<&str>, corpus: &str, seed: u64, out: &str, thorough
     // the rest of a line to another column without changing its bytes must still invalidate what follows on that line
     (SupportLang::Haskell, "carrier9".into(), "f = foo\n  bar   xx (do p\n               q)\n".into()),
     (SupportLang::Haskell, "carrier10".into(), "g x = case x of\n  1 -> a    (do b\n              c)\n  _ -> d\n".into()),
+    (SupportLang::Haskell, "carrier11".into(), "f =\n  do a\n        b\n".into()),
   ];
   for (l, path, text) in util::corpus(corpus) {
     if path.contains("/c.") || (thorough && text.len() < 2500) {
@@ -265,7 +266,19 @@ pub fn drive(vectors: Option<&str>, corpus: &str, seed: u64, out: &str, thorough
         }
       }
     }
-    if path == "carrier9" || path == "carrier10" {
+    if path == "carrier9" || path == "carrier10" || path == "carrier11" {
+      // lines joined: a line break (with some of the blanks behind it) removed, so that the removed range ends exactly at the
+      // start of a line or inside its indentation
+      let b0 = text.as_bytes();
+      for at in 0..b0.len() {
+        if b0[at] == b'\n' && at + 1 < b0.len() {
+          planned.push((at, 1, String::new()));
+          planned.push((at, 1, " ".to_string()));
+          if b0[at + 1] == b' ' {
+            planned.push((at, 2, String::new()));
+          }
+        }
+      }
       // every run of blanks inside a line: k of them replaced by a line break and k blanks (and the plain insertions)
       let b = text.as_bytes();
       for at in 1..b.len() {
